@@ -1,3 +1,5 @@
+mod ast;
+mod engine_a;
 mod engine_c;
 mod refmodel;
 mod report;
@@ -53,10 +55,57 @@ fn part_c(prop: &str, tier: &str, sink: &Sink, ev: &mut Evidence) {
     }
 }
 
+fn part_a(prop: &str, tier: &str, sink: &Sink, ev: &mut Evidence) {
+    if matches!(prop, "C01" | "C02" | "C03") {
+        match engine_a::oracle_crosscheck() {
+            Ok((cases, cells, dis, first)) => {
+                ev.extra.insert("oracle_crosscheck".into(), json!({"against": "frozen node-semver 7.6.2 answers (fixtures/npm-7.6.2/answers.json)", "programs": cases, "cells": cells, "disagreements": dis}));
+                if dis != 0 {
+                    eprintln!("MACHINERY: reference model disagrees with the node-semver fixtures: {}", first);
+                    std::process::exit(2);
+                }
+            }
+            Err(e) => {
+                eprintln!("MACHINERY: oracle cross-check failed: {}", e);
+                std::process::exit(2);
+            }
+        }
+    }
+    let (e, out) = match prop {
+        "C01" => engine_a::run_c01(tier, sink),
+        "C02" => engine_a::run_c02(tier, sink),
+        _ => engine_a::run_misc(prop, tier, sink),
+    };
+    let programs = out.counters.get("programs").copied().unwrap_or(0) + out.counters.get("pairs").copied().unwrap_or(0);
+    ev.evaluations += programs;
+    ev.distinct_nontrivial += out.counters.get("nontrivial_programs").copied().unwrap_or(0);
+    if ev.level == "model_checking" {
+        ev.states = Some(ev.states.unwrap_or(0) + programs);
+        ev.transitions = Some(ev.transitions.unwrap_or(0) + programs);
+        ev.traces_validated = Some(ev.traces_validated.unwrap_or(0) + programs);
+    }
+    ev.samples.extend(out.samples.clone());
+    ev.extra.insert(
+        "engine_a".into(),
+        json!({"universe_versions": e.u.len(), "counters": out.counters, "deviation_sites_per_kind": out.per_dev_kind,
+               "level1_partials": e.all_partials.len(), "reduced_comparators": e.reduced.len(), "core_comparators": e.core.len(), "alternative_set": e.alts.len()}),
+    );
+    if !ev.rule.is_empty() {
+        ev.rule.push_str(" || ");
+    }
+    ev.rule.push_str("Engine A: every range program (AST) of the bounded grammar (level 1: every operator x every partial over the component alphabet, every hyphen pair; level 2: every ordered pair `a b` over the reduced comparator set and every `a || b` over the alternative set; level 3 (thorough): every triple over the core), rendered with 0, 1 (and for level 1 in thorough: 2) spelling deviations at every applicable site, parsed by the real Range::parse and compared with the reference desugaring on every version of the universe; non-trivial = programs whose reference meaning admits some but not all universe versions");
+    for a in [ASSUME_T2, ASSUME_H, ASSUME_SMALL, "reference desugaring = DESIGN Appendix A, validated against node-semver 7.6.2 (fixtures); cells where node's `>=0.0.0`-is-any shortcut and the documented reading differ are don't-care"] {
+        if !ev.assumptions.iter().any(|x| x == a) {
+            ev.assumptions.push(a.to_string());
+        }
+    }
+}
+
 fn replay_dispatch(prop: &str, case: &Value) -> Vec<(String, String, String, String)> {
     let sink = Sink::new(prop, "replay");
     match case["engine"].as_str().unwrap_or("") {
         "C" => engine_c::replay(prop, case, &sink),
+        "A" => engine_a::replay(prop, case, &sink),
         other => eprintln!("replay: unknown engine {:?}", other),
     }
     sink.take()
@@ -73,7 +122,12 @@ fn run_check(prop: &str, tier: &str) -> i32 {
     let mut ev = Evidence::new(level_of(prop));
     match prop {
         "C07" | "C08" | "C09" | "C10" | "C15" => part_c(prop, tier, &sink, &mut ev),
-        "C03" | "C06" | "C11" | "C13" => part_c(prop, tier, &sink, &mut ev),
+        "C01" | "C02" => part_a(prop, tier, &sink, &mut ev),
+        "C03" | "C11" | "C13" => {
+            part_c(prop, tier, &sink, &mut ev);
+            part_a(prop, tier, &sink, &mut ev);
+        }
+        "C06" => part_c(prop, tier, &sink, &mut ev),
         _ => {
             eprintln!("unknown property {}", prop);
             return 2;
@@ -121,6 +175,22 @@ fn main() {
     if args.is_empty() {
         eprintln!("usage: semver-mc <Cxx> [--tier quick|thorough] [--replay file]");
         std::process::exit(2);
+    }
+    if args[0] == "fixture-input" {
+        println!("{}", serde_json::to_string(&engine_a::fixture_input()).unwrap());
+        return;
+    }
+    if args[0] == "oracle-crosscheck" {
+        match engine_a::oracle_crosscheck() {
+            Ok((cases, cells, dis, first)) => {
+                println!("oracle cross-check vs node-semver 7.6.2 fixtures: programs={} cells={} disagreements={} {}", cases, cells, dis, first);
+                std::process::exit(if dis == 0 { 0 } else { 2 });
+            }
+            Err(e) => {
+                eprintln!("MACHINERY: oracle cross-check failed: {}", e);
+                std::process::exit(2);
+            }
+        }
     }
     let prop = args[0].clone();
     let mut tier = std::env::var("VERIF_TIER").unwrap_or_else(|_| "quick".into());
